@@ -2,6 +2,7 @@ import DoitModel.Proofs.DelayedWF
 import DoitModel.Proofs.C15Obey3
 import DoitModel.Proofs.C15Target
 import DoitModel.Proofs.C15Clos
+import DoitModel.Proofs.C15Redef
 import DoitModel.Model.DelayedSel
 /-! # C15 — delayed task creation happens once, after its trigger
 
@@ -19,15 +20,10 @@ pinned variant) and evaluated on every generated case.
 
 What is proved of `created_obey` / `target` and what is left (wave 3):
 * `C15_created_obey` is the full `obeyOK` statement over the dependency table of the `Task` objects the nodes hold
-  (`nodeDeps`).  Over `TaskControl.tasks` (`dynDeps`) it is `C15_created_obey_table`, with the state hypothesis that
-  the entry of every started task is still the object its node holds.  The gap is real in the model and in doit:
-  `self.tasks[nt.name] = nt` has no guard, a creator may re-define a task that was already executed.  The invariant
-  that would discharge the hypothesis from a decidable input condition is "a node whose task has no loader holds
-  `tasks[name]`"; it is broken exactly by `insertNew` over the name of such a node, and excluding that needs (i) no
-  yielded name is a static non-placeholder task, (ii) the yields of different creators are disjoint — with a history
-  invariant "a table entry outside `tasks0` was yielded by an evaluated creator" —, (iii) a placeholder is not
-  `DelayedLoaded` before its own creator ran (`mustCreate` is also false when `tasks[to_load]` has no loader, so this
-  needs a `resolvesB`-like condition on `to_load`).  Not done.
+  (`nodeDeps`), without further hypotheses.  Over `TaskControl.tasks` (`dynDeps`) it is `C15_created_obey_tasks`
+  with the decidable hypothesis `noRedefB`; the gap is real in the model and in doit (`self.tasks[nt.name] = nt` has
+  no guard, a creator may re-define a task that was already executed): `created_obey_needs_noRedef`.
+  `C15_created_obey_table` is the bridge (state hypothesis instead of `noRedefB`).
 * `C15_target` is the structural core, `C15_started_in_closure` the "exactly" half (nothing outside the closure of
   the selection is started).  "The run does start the producer" (liveness) is not a model theorem; the monitor
   `targetOK` evaluates it on exit 0. -/
@@ -140,6 +136,26 @@ theorem C15_created_obey_table (inp : Input) (h : trigB inp = true) (s : Sys) (h
   rw [← obeyOK_congr (nodeDeps s) (dynDeps s) inp.noAct s.events hsame]
   exact C15_created_obey inp h s hr
 
+/-- no re-definition: under `noRedefB` (a yielded name is new or a placeholder of the same creator, yields of
+    different creators are disjoint, `to_load` names a placeholder of the same creator, the dispatcher keeps
+    `evaluated_creators`) a node whose `Task` object carries no loader — every task that was handed to execution —
+    holds exactly `TaskControl.tasks[name]` -/
+theorem C15_node_holds_table (inp : Input) (h : noRedefB inp = true) (s : Sys) (hr : Reach inp s) (n : Name)
+    (nd : Node) (hn : s.nodes n = some nd) (hl : nd.task.loader = none) : s.tasks n = some nd.task :=
+  (redef_reach (redefWF_of_bool h) hr).t n nd hn hl
+
+/-- **created_obey** over the task table `TaskControl.tasks` as it is in the state (`dynDeps`): the statement the
+    placeholder `C15_created_obey_full` asked for, with the decidable hypothesis `noRedefB`.  Without it the
+    statement is false of the model and of doit (`created_obey_needs_noRedef` below). -/
+theorem C15_created_obey_tasks (inp : Input) (h : trigB inp = true) (h2 : noRedefB inp = true) (s : Sys)
+    (hr : Reach inp s) : obeyOK (dynDeps s) inp.noAct s.events = true := by
+  apply C15_created_obey_table inp h s hr
+  intro t ht
+  obtain ⟨nd, hn, hl⟩ :=
+    started_loaded (after_reach (trigWF_of_bool h) hr).cnt (obey_reach (trigWF_of_bool h) hr) t ht
+  have := (redef_reach (redefWF_of_bool h2) hr).t t nd hn hl
+  simp [nodeDeps, dynDeps, hn, this]
+
 /-- **target**, structural core.  `rxB`: a task of the initial table that belongs to a regex group (a
     `_regex_target…` placeholder, or the creator's own task selected through its `target_regex`) carries a loader and
     has the command-line word among its file_deps — what `_filter_tasks` builds.  Regex matching is the oracle that
@@ -226,6 +242,34 @@ example :
     (autoRun (exInput false) 200 (init (exInput false))).events.reverse =
       [.start 0, .success 0, .creator 0, .start 1, .success 1, .start 2, .success 2, .start 3, .success 3] := by
   decide
+/-- the hypotheses of the `created_obey` theorems hold for the example above -/
+example : noRedefB (exInput true) = true ∧ trigB (exInput true) = true := by decide
+
+/-! ### `noRedefB` is needed: static tasks 3 and 4, selection `[3, 1]`; task 3 runs first, then the creator of
+    placeholder 1 (trigger 0) yields a task named 3 that depends on 4.  `tasks[3]` is re-defined after task 3 was
+    executed; over the task table the ordering statement is false, over the node-held objects it holds. -/
+
+def exRedef : Input :=
+  { tasks0 := [(0, { act := true, oid := 0 }), (1, { deps := [0], loader := some 0, oid := 1 }),
+               (3, { act := true, oid := 3 }), (4, { act := true, oid := 4 })]
+    targets0 := []
+    creatorOf := fun _ => 0
+    execOf := fun _ => some 0
+    baseOf := fun _ => none
+    gtarget := fun _ => 0
+    gtasks0 := fun _ => []
+    make := fun _ _ => [{ name := 1 }, { name := 3, deps := [4] }]
+    sel := [3, 1] }
+
+theorem created_obey_needs_noRedef :
+    trigB exRedef = true ∧ noRedefB exRedef = false ∧
+    Reach exRedef (autoRun exRedef 200 (init exRedef)) ∧
+    (autoRun exRedef 200 (init exRedef)).events.reverse =
+      [.start 3, .success 3, .start 0, .success 0, .creator 0, .start 1, .success 1] ∧
+    obeyOK (dynDeps (autoRun exRedef 200 (init exRedef))) exRedef.noAct (autoRun exRedef 200 (init exRedef)).events = false ∧
+    obeyOK (nodeDeps (autoRun exRedef 200 (init exRedef))) exRedef.noAct (autoRun exRedef 200 (init exRedef)).events = true :=
+  ⟨by decide, by decide, autoRun_reach 200 _ Reach.init, by decide, by decide, by decide⟩
+
 /-! ### non-vacuity of the target rule: trigger `0`; task 1 = the creator's own placeholder; task 5 = the
     `_regex_target…` placeholder of word 7 (loader copy 1 with basename 1, group 0 = {1}); selection `[5]`. -/
 
@@ -245,7 +289,7 @@ def exRx (produce : Bool) : Input :=
 /-- the creator yields the producer of word 7: the placeholder is reset with the producer among its task_deps and
     runs after it; the unselected static task 9 is not touched -/
 example :
-    rxB (exRx true) = true ∧ trigB (exRx true) = true ∧
+    rxB (exRx true) = true ∧ trigB (exRx true) = true ∧ noRedefB (exRx true) = true ∧
     (autoRun (exRx true) 200 (init (exRx true))).susp = .stopIter ∧
     (autoRun (exRx true) 200 (init (exRx true))).events.reverse =
       [.start 0, .success 0, .creator 0, .start 1, .success 1, .start 5, .success 5] ∧
